@@ -305,3 +305,68 @@ fn cnt_clear(mut m: M) {
 fn cnt_clear__split() {
     cnt_clear(state(true))
 }
+
+/// C03's completion bound executed rather than argued: from any split state with L <= 2R + 2
+/// leftovers, ceil(L / R) (<= 3) consecutive key-adding inserts finish the resize and free the old
+/// table, without any further allocation (C04) — for main tables of any size.
+#[kani::proof]
+#[kani::unwind(12)]
+fn cnt_insert3__split_completes() {
+    let mut m = state_ll(true, 1, LMAX);
+    let l0 = old_len(&m);
+    let need = (l0 + R - 1) / R;
+    reset_counters();
+    let mut done = 0usize;
+    let mut i = 0;
+    while i < 3 {
+        if done < need {
+            let r = m.insert(kani::any(), kani::any());
+            // only key-adding calls count towards the bound
+            kani::assume(r.is_none());
+            done += 1;
+        }
+        i += 1;
+    }
+    assert!(!is_split(&m), "[C03] the resize is not complete after ceil(L/R) key-adding insertions");
+    assert!(acct::live() <= 1, "[C03] the old table is still allocated after the resize completed");
+    assert!(acct::allocs() == 0, "[C04] finishing a pending resize needed another table allocation");
+    post_inv(&m);
+    kani::cover!(need == 3, "cls: three insertions needed");
+    kani::cover!(need == 1, "cls: one insertion needed");
+    kani::cover!(true, "reach: end of harness");
+    core::mem::forget(m);
+}
+
+/// C10's "the next n new keys are inserted without reallocation", executed for n <= 3 after
+/// reserve(n) issued in any state (any table sizes; a pending resize with L <= R + 1).
+fn cnt_reserve_then_insert(mut m: M) {
+    let n: usize = kani::any();
+    kani::assume(n <= 3);
+    m.reserve(n);
+    let len = m.len();
+    reset_counters();
+    let mut i = 0;
+    while i < 3 {
+        if i < n {
+            let r = m.insert(kani::any(), kani::any());
+            kani::assume(r.is_none());
+        }
+        i += 1;
+    }
+    assert!(acct::allocs() == 0 && acct::rehash() == 0, "[C10] one of the n insertions after reserve(n) reallocated");
+    assert!(m.len() == len + n, "[C01] len() wrong after n insertions");
+    post_inv(&m);
+    kani::cover!(n == 3, "cls: three insertions");
+    kani::cover!(true, "reach: end of harness");
+    core::mem::forget(m);
+}
+#[kani::proof]
+#[kani::unwind(12)]
+fn cnt_reserve_then_insert__split() {
+    cnt_reserve_then_insert(state_l(true, R_SPEC + 1))
+}
+#[kani::proof]
+#[kani::unwind(12)]
+fn cnt_reserve_then_insert__unsplit() {
+    cnt_reserve_then_insert(state(false))
+}
